@@ -106,6 +106,15 @@ Theorem C12_affine_cells_convex : forall t (a : affine), (0 < detM a)%R ->
     (0 < outward2 ROps (map (aff a) (ref_cell t)) (pick_pts (map (aff a) (ref_cell t)) f))%R.
 Proof. exact affine_cell_outward. Qed.
 
+(* scale covariance: under x |-> k x area vectors scale by k^2 and the sign
+   test by k^3, so for k > 0 the facets, signs and unit normals are those of the
+   unscaled mesh *)
+Theorem C12_scale_covariant : forall (k : R) (cell face : list RV3),
+  outward2 ROps (map (vscale ROps k) cell) (map (vscale ROps k) face)
+  = (k * k * k * outward2 ROps cell face)%R
+  /\ varea2 ROps (map (vscale ROps k) face) = vscale ROps (k * k)%R (varea2 ROps face).
+Proof. intros. split; [apply outward2_scale | apply varea2_scale]. Qed.
+
 (* non-vacuity: two positive tetrahedra glued along a face, sparse unsorted ids *)
 Definition ex_mesh : mesh :=
   {| m_nodes := [40; 7; 19; 3; 88]%Z;
